@@ -138,8 +138,55 @@ def _equiv_chunk(args):
         out.append(({"what": "frozen dofs have non-zero acceleration or velocity"}, f"step {k}: qacc {qa[frozen].tolist()}", where))
         return out
       out.append(("ok_frozen", int(frozen.sum()), None))
+      break
+  else:
+    out.append(("never_slept", None, None))
+    return out
+  # partial sleep: wait until every tree of world 0 sleeps, wake the LAST tree (its dofs follow sleeping trees in dof order) with a velocity, and
+  # compare the awake tree's acceleration with the no-sleep model at the very same state (incl. the warm start), for a few steps
+  for k in range(600):
+    if (d_s.tree_asleep.numpy()[0] >= 0).all():
+      break
+    mjw.step(m_s, d_s)
+  else:
+    out.append(("never_all_slept", None, None))
+    return out
+  dof_tree = np.array(ms.dof_treeid)
+  last = ms.ntree - 1
+  dl = np.nonzero(dof_tree == last)[0]
+  def kick():  # a disturbance that keeps the tree on the floor (the point is a constrained solve): no upward velocity for a free body
+    kv = rng.uniform(-1.0, 1.0, size=dl.size).astype(np.float32)
+    if dl.size == 6:
+      kv[2] = -0.3
+      kv[3:] *= 0.5
+    return kv
+
+  v = d_s.qvel.numpy()
+  v[0, dl] = kick()
+  wp.copy(d_s.qvel, wp.array(v, dtype=float))
+  mjw.step(m_s, d_s)
+  constrained = 0
+  for k in range(30):
+    if (d_s.tree_asleep.numpy()[0][last] >= 0) or not (d_s.tree_asleep.numpy()[0][:last] >= 0).all():
+      out.append(("partial_not_realised", None, None) if not constrained else ("ok_partial", constrained, None))
       return out
-  out.append(("never_slept", None, None))
+    if k % 3 == 2:  # keep it moving, with a fresh disturbance (different warm starts and active sets)
+      v = d_s.qvel.numpy()
+      v[0, dl] = kick()
+      wp.copy(d_s.qvel, wp.array(v, dtype=float))
+    for f in ("qpos", "qvel", "qacc_warmstart", "ctrl"):
+      a = getattr(d_s, f).numpy()
+      wp.copy(getattr(d_f, f), wp.array(np.tile(a[:1], (nworld,) + (1,) * (a.ndim - 1)), dtype=float))
+    mjw.forward(m_f, d_f)
+    mjw.step(m_s, d_s)  # its qacc belongs to the state just copied
+    constrained += int(d_s.nefc.numpy()[0] > 0)
+    a, b = d_s.qacc.numpy()[0][dl], d_f.qacc.numpy()[0][dl]
+    sc = max(1.0, float(np.abs(b).max()))
+    if float(np.abs(a - b).max()) > 5e-3 * sc:
+      out.append(({"what": "compact solve with sleeping trees differs from the full solve on the awake tree", "field": "qacc"},
+                  f"step {k}: awake tree {last} qacc {a.round(3).tolist()} full solve {b.round(3).tolist()}", where))
+      return out
+  out.append(("ok_partial", constrained, None) if constrained else ("partial_without_constraints", None, None))
   return out
 
 
@@ -174,11 +221,18 @@ def run(ctx: core.Ctx):
     for key, msg, scen in res:
       if key == "ok_frozen":
         slept += 1
-      elif key == "never_slept":
-        ctx.skip("never_slept")
+      elif key == "ok_partial":
+        ctx.extra["scenes_with_partial_sleep_checked"] = ctx.extra.get("scenes_with_partial_sleep_checked", 0) + 1
+        ctx.extra["constrained_partial_solves_compared"] = ctx.extra.get("constrained_partial_solves_compared", 0) + int(msg)
+        if jac == "sparse":
+          ctx.extra["constrained_partial_solves_compared_sparse"] = ctx.extra.get("constrained_partial_solves_compared_sparse", 0) + int(msg)
+      elif key in ("never_slept", "never_all_slept", "partial_not_realised", "partial_without_constraints"):
+        ctx.skip(key)
       else:
         ctx.violation(key, msg, scen)
   ctx.extra["scenes_with_sleeping_trees_checked"] = slept
+  if not ctx.extra.get("constrained_partial_solves_compared_sparse") or ctx.extra.get("constrained_partial_solves_compared", 0) < 20:
+    raise RuntimeError(f"vacuous: too few constrained solves with a partially sleeping world: {ctx.extra}")
   ctx.assumptions += ["tree_awake is written directly to realise every awake subset for the map check; equivalence tolerance 5e-3 relative (solver outputs)"]
 
 
